@@ -352,4 +352,94 @@ theorem gatherCells_missing {idxs : List (List (Coord × Cell))} {k : Coord}
         · exact ⟨d', hd', hl⟩
       rw [ih this]
 
+/-! ### the loop, by position -/
+
+
+theorem gatherCells_spec {k : Coord} : ∀ {idxs : List (List (Coord × Cell))} {cs : List Cell},
+    gatherCells idxs k = .ok cs → List.Forall₂ (fun d c => lookup d k = some c) idxs cs := by
+  intro idxs
+  induction idxs with
+  | nil => intro cs h; simp [gatherCells] at h; subst h; exact .nil
+  | cons d ds ih =>
+    intro cs h
+    simp only [gatherCells] at h
+    split at h
+    · cases h
+    · rename_i c hc
+      split at h
+      · cases h
+      · rename_i cs' hcs'
+        cases h
+        exact .cons hc (ih hcs')
+
+theorem blendFields_mem {cells w m idx} : ∀ {fs vs}, blendFields cells w m idx fs = .ok vs →
+    ∀ f v, (f, v) ∈ vs → blendField m (fieldVals cells f) w (idx f) = .ok v := by
+  intro fs
+  induction fs with
+  | nil => intro vs h; simp [blendFields] at h; subst h; simp
+  | cons f fs ih =>
+    intro vs h
+    simp only [blendFields] at h
+    split at h
+    · cases h
+    · rename_i v hv
+      split at h
+      · cases h
+      · rename_i rest hrest
+        cases h
+        intro f' v' hmem
+        rcases List.mem_cons.mp hmem with heq | hmem
+        · cases heq; exact hv
+        · exact ih hrest f' v' hmem
+
+theorem blendCells_values {cs w m idx c} (h : blendCells cs w m idx = .ok c) :
+    ∀ f v, (f, v) ∈ c.values → blendField m (fieldVals cs f) w (idx f) = .ok v := by
+  unfold blendCells at h
+  split at h
+  · cases h
+  · split at h
+    · split at h
+      · cases h
+      · rename_i vs hvs
+        cases h
+        exact blendFields_mem hvs
+    · cases h
+
+theorem blendLoop_indexed {idxs m idx} : ∀ {ks : List (Coord × Cell)} {i wl out},
+    blendLoop idxs m idx i ks wl = .ok out → ks.length ≤ wl.length →
+    ∀ n (hn : n < ks.length) (hw : n < wl.length), ∃ cs, gatherCells idxs ks[n].1 = .ok cs ∧
+      ∃ ho : n < out.length, blendCells cs wl[n] m (idx (i + n)) = .ok out[n] := by
+  intro ks
+  induction ks with
+  | nil => intro i wl out _ _ n hn; simp at hn
+  | cons p ks ih =>
+    intro i wl out h hlen n hn hw
+    cases wl with
+    | nil => simp at hlen
+    | cons w ws =>
+      obtain ⟨k, pc⟩ := p
+      simp only [blendLoop] at h
+      split at h
+      · cases h
+      · rename_i cs hcs
+        split at h
+        · cases h
+        · rename_i c hc
+          split at h
+          · cases h
+          · rename_i r hr
+            cases h
+            cases n with
+            | zero => exact ⟨cs, hcs, by simp, by simpa using hc⟩
+            | succ n =>
+              obtain ⟨cs', h1, ho, h2⟩ := ih hr (by simpa using hlen) n (by simpa using hn) (by simpa using hw)
+              refine ⟨cs', by simpa using h1, by simpa using ho, ?_⟩
+              have : i + 1 + n = i + (n + 1) := by omega
+              simpa [this] using h2
+
+theorem forall₂_length' {α β} {R : α → β → Prop} : ∀ {l : List α} {l' : List β},
+    List.Forall₂ R l l' → l'.length = l.length
+  | _, _, .nil => rfl
+  | _, _, .cons _ t => by simp [forall₂_length' t]
+
 end Bermuda.Blend
